@@ -293,6 +293,9 @@ def run(ctx):
     from .c04 import rule_hash_codes
     rule_hash_codes(ctx, mir, idx, rid="R15.11")
 
+    # ------------------------------------------------------------------ R15.12
+    rule_assert_preconditions_and_bounded_work(ctx, mir)
+
     ctx.not_decided += ["absence of panics / overflow for all inputs (only the accounting and guards of panic-capable constructs are decided)", "stack exhaustion inside the selectors / cssparser crates", "running-time bounds beyond progress of the state machine"]
     ctx.assumptions += ["reviewed entries of spec/panic_sites.json are guarded as stated there", "recursion detection follows resolved calls and closure creation; calls through generic trait bounds (type-structural recursion such as Option<T>::align) are not followed"]
     return ("Structural part only: progress of the tokenizer automaton for each of the 257 input symbols, must-typestate of the actions' "
@@ -356,3 +359,28 @@ def rule_action_preconditions(ctx, idx, g, aut, rid="R15.4"):
                 if not fact[node]:
                     r.violate(key, f"{st} asks is_appropriate_end_tag although no end tag token may exist on some path", shared.state_loc(st))
                 break
+
+
+def rule_assert_preconditions_and_bounded_work(ctx, mir, rid="R15.12"):
+    r = ctx.rule(rid, "callers respect eq_case_insensitive's asserted precondition (its second argument is debug_assert'ed to be lower-case: it is a lower-case byte-string constant or a name that went through the lower-casing constructor - never bytes taken from the document), and the per-name counters of the open-element stack shrink when elements close (otherwise every stray end tag scans the whole stack: work no longer proportional to the input)", "E-MIR operand provenance", floor=8)
+    n = 0
+    for f in mir.fns:
+        if mir.is_test_fn(f):
+            continue
+        for bi, t in f.calls(r"eq_case_insensitive$"):
+            if len(t["args"]) != 2:
+                continue
+            n += 1
+            a1 = f.deep(t["args"][1])
+            key = f"{f.key}|eq_case_insensitive#{n}"
+            r.inst(key, sample={"lowercased_argument": a1[:80]})
+            m = re.match(r'^const b"((?:[^"\\\\]|\\\\.)*)"', a1)
+            if m:
+                if m.group(1) != m.group(1).lower():
+                    r.violate(key, f"{f.key} passes the constant {m.group(1)!r} as the lower-case side of eq_case_insensitive: the comparison can never succeed (and the debug assertion fires)", f.loc())
+            elif re.search(r"Lexeme::part\(|token_outline|Lexeme::input|\binput\b", a1):
+                r.violate(key, f"{f.key} passes document bytes (`{a1[:90]}`) as the `lowercased` argument of eq_case_insensitive: a name with an upper-case letter trips its debug assertion (a panic in debug builds) and compares case-sensitively in release builds - the arguments are swapped", f.loc())
+    if n < 8:
+        raise EngineError(f"{rid}: only {n} eq_case_insensitive call sites found")
+    sm.clause_open_name_counts_shrinks(r, mir)
+
